@@ -148,3 +148,39 @@ func constValString(o types.Object) string {
 	}
 	return ""
 }
+
+// shapeSig: operator/constant skeleton of an expression: every non-constant leaf below the
+// given depth (and every non-BinOp operand) is abstracted to "v".
+func shapeSig(v ssa.Value, depth int) string {
+	v = stripConv(v)
+	if c, ok := v.(*ssa.Const); ok && c.Value != nil {
+		return c.Value.ExactString()
+	}
+	b, ok := v.(*ssa.BinOp)
+	if !ok || depth <= 0 {
+		return "v"
+	}
+	a, c := shapeSig(b.X, depth-1), shapeSig(b.Y, depth-1)
+	switch b.Op {
+	case token.ADD, token.MUL, token.OR, token.AND, token.XOR:
+		if c < a {
+			a, c = c, a
+		}
+	}
+	return "(" + a + " " + b.Op.String() + " " + c + ")"
+}
+
+func findShapes(fn *ssa.Function, depth int, pred func(v ssa.Value) bool) []string {
+	set := map[string]bool{}
+	instrs(fn, func(_ *ssa.BasicBlock, _ int, in ssa.Instruction) {
+		if v, ok := in.(ssa.Value); ok && pred(v) {
+			set[shapeSig(v, depth)] = true
+		}
+	})
+	var out []string
+	for k := range set {
+		out = append(out, k)
+	}
+	sort.Strings(out)
+	return out
+}
